@@ -111,6 +111,21 @@ def calendars(tier, seed):
                                                       "expiry": str(expected_expiry(name, year, month))} if (year, month) == (2019, 6) else None)
                 for nm, d in bad:
                     acc.fail("C19::shell::" + nm, "c19_calendar", {"what": "contract", "class": name, "year": year, "month": month}, d)
+    # ambient state of the interpreter must not matter either: python's calendar module has a process-wide "first weekday" setting
+    saved_fw = _cal.firstweekday()
+    try:
+        for fw in (_cal.SUNDAY, _cal.SATURDAY):
+            _cal.setfirstweekday(fw)
+            for name in CLASSES:
+                for year in (1970, 1999, 2000, 2019, 2024, 2099):
+                    for month in range(1, 13):
+                        bad = check_contract(name, year, month)
+                        acc.case((name, year, month, "firstweekday", fw))
+                        for nm, d in bad:
+                            d = dict(d or {}); d["calendar.firstweekday"] = fw
+                            acc.fail("C19::shell::" + nm, "c19_calendar", {"what": "contract", "class": name, "year": year, "month": month, "firstweekday": fw}, d)
+    finally:
+        _cal.setfirstweekday(saved_fw)
     for name in CLASSES:
         for (s, e) in SPANS:
             bad, n = check_chain(name, s, e)
@@ -122,7 +137,13 @@ def calendars(tier, seed):
 
 def rerun(inp):
     if inp["what"] == "contract":
-        bad = check_contract(inp["class"], inp["year"], inp["month"])
+        saved_fw = _cal.firstweekday()
+        try:
+            if "firstweekday" in inp:
+                _cal.setfirstweekday(inp["firstweekday"])
+            bad = check_contract(inp["class"], inp["year"], inp["month"])
+        finally:
+            _cal.setfirstweekday(saved_fw)
     else:
         bad, _ = check_chain(inp["class"], inp["start"], inp["end"])
     return {"reproduced": bool(bad), "failing": bad[:3]}
